@@ -9,18 +9,29 @@ inner-scope symbol tables with `_handle_symbol_clash`).  Quantification: every s
 of symbols, any dependencies, any argument list), every list of inner scopes.
 
 What is proved
-* `_gen_parameter_decls`: every constant exactly once, each after the constants it depends on, and it
-  raises exactly when no admissible order exists — for all dependency graphs.
-* `gen_decls`: every declarable symbol is declared exactly once; every symbol of the table is
-  declared, imported by a `use`, covered by a wildcard import or needs no declaration.
-* order across the five groups of `gen_decls`: the full statement `C04_statement` (a table whose own
-  order is a valid declaration order is written in a valid order) is FALSE of the pinned code —
+* `_gen_parameter_decls`: every constant exactly once (`C04_orderParams_perm`), each after the
+  constants it depends on (`C04_orderParams_respects_deps`), it raises exactly when no admissible order
+  exists (`C04_orderParams_fails_only_on_cycle`), an already valid listing is kept
+  (`C04_orderParams_sorted_id`) — for all dependency graphs.
+* `gen_decls`: every declarable symbol is declared exactly once (`C04_decls_unique`); every symbol of
+  the table is declared, imported by a `use`, covered by a wildcard import or needs no declaration
+  (`C04_decls_cover_uses`).
+* declaration order: the full statement `C04_statement` (a table whose own order is a valid
+  declaration order is written in a valid order) is FALSE of the pinned code —
   `C04_order_counterexample` (a constant whose initial value inquires about a variable, as in LFRic's
-  `constants_mod.f90`) — and `C04_order_partial` proves it under `GroupMonotone` (no declaration reads
-  a symbol that `gen_decls` puts in a later group; inside a group the table order is valid
-  and constant-to-constant dependencies are ones `_gen_parameter_decls` tracks).
-* scope merging: names stay distinct (so every written name denotes the object it was written for),
-  objects keep identity and kind, only renamable symbols are renamed, new names never hide a host name.
+  `constants_mod.f90`).  `C04_order_valid_iff`: the written order is valid IF AND ONLY IF the decidable
+  condition `LaterFree` holds — no declaration reads a symbol that `gen_decls` places in a later group
+  (interfaces < constants < arguments < derived types < the rest) or later within its own group
+  (constants: the order computed by `_gen_parameter_decls`; other groups: table order).  The four known
+  findings are exactly the complement of `LaterFree`.  `C04_order_partial` / `C04_groupMonotone_laterFree`:
+  `GroupMonotone`, a sufficient condition that does not mention the computed order of the constants.
+* scope merging (`routine_node`, and `SymbolTable.merge` as used by InlineTrans):
+  `C04_merge_rename_no_capture` — names stay distinct (every written name denotes the object it was
+  written for), objects keep identity and kind, only renamable symbols whose name does not occur
+  (case-insensitively) in a CodeBlock of their scope are renamed, new names never hide a host name;
+  `C04_codeblock_names_not_captured`; `C04_merge_complete` / `C04_merge_table_complete` — every input
+  symbol survives the merge (possibly renamed), or is an imported / unresolved duplicate dropped in
+  favour of an entry of the same name and kind; `C04_merge_table_no_capture`.
 
 Not modelled: the text of a declaration (only which names it reads), references in executable
 statements (the PSyIR refers to symbol objects; after merging, distinct names make the text
@@ -222,6 +233,118 @@ theorem C04_order_partial (u : Decls.Unit) (w : Wf u) (hg : GroupMonotone u) (ds
       refine idxOf_filter_mono w.nodup _ ht'.1 hs'.1 (by simp [hc]) (by simp) ?_
       rw [htn]; exact hw
 
+/-- `d` is placed before `s` inside their common `gen_decls` group: constants in the order computed
+by `_gen_parameter_decls`, every other group in symbol-table order -/
+def withinBefore (u : Decls.Unit) (s : Sym) (d : Name) : Prop :=
+  if s.cls = .param then
+    match orderParams (paramGraph u.syms) with
+    | some order => order.idxOf d < order.idxOf s.name
+    | none => True
+  else (names u.syms).idxOf d < (names u.syms).idxOf s.name
+
+instance (u : Decls.Unit) (s : Sym) (d : Name) : Decidable (withinBefore u s d) := by
+  unfold withinBefore
+  split
+  · split <;> infer_instance
+  · infer_instance
+
+/-- the weakest condition: no declaration reads a symbol that `gen_decls` places in a later group, or
+later (or at the same place) within its own group.  Decidable. -/
+def LaterFree (u : Decls.Unit) : Prop :=
+  ∀ s ∈ u.syms, s.cls.declarable = true → ∀ d ∈ s.deps, ∀ t ∈ u.syms, t.name = d → t.cls.declarable = true →
+    t.cls.group < s.cls.group ∨ (t.cls = s.cls ∧ withinBefore u s d)
+
+instance (u : Decls.Unit) : Decidable (LaterFree u) := by unfold LaterFree; infer_instance
+
+/-- **The written declaration order is valid exactly when no declaration reads a symbol that
+`gen_decls` places later**: the four known findings (constant reads a variable / unsupported-type
+constant, interface reads a later entity, argument of a local type, untracked constant-to-constant
+dependency placed later) are precisely the complement of `LaterFree`. -/
+theorem C04_order_valid_iff (u : Decls.Unit) (w : Wf u) (ds : List Sym) (h : genDecls u = .ok ds) :
+    DepsOrdered ds ↔ LaterFree u := by
+  obtain ⟨order, ho, hds, _, _, _⟩ := genDecls_ok h
+  have hperm := genDecls_perm w h
+  have hsegeq : ∀ c : Cls, c.declarable = true → c ≠ .param → seg u order c = names (ofCls u.syms c) := by
+    intro c hc hne
+    rcases declarable_cases hc with h | h | h | h | h <;> simp_all [seg]
+  constructor
+  · -- valid order ⇒ nothing is read from a later place
+    intro hord s hs hsd d hd t ht htn htd
+    have hsds : s ∈ ds := hperm.symm.subset (List.mem_filter.mpr ⟨hs, by simpa using hsd⟩)
+    have htds : t ∈ ds := hperm.symm.subset (List.mem_filter.mpr ⟨ht, by simpa using htd⟩)
+    have hlt := hord s hsds d hd (by rw [← htn]; exact List.mem_map.mpr ⟨t, htds, rfl⟩)
+    rw [hds, names_genDecls w ho] at hlt
+    obtain ⟨ps, ps2⟩ := pos_eq w ho hs hsd
+    obtain ⟨pt, pt2⟩ := pos_eq w ho ht htd
+    rw [← htn, ps, pt] at hlt
+    rcases Nat.lt_trichotomy t.cls.group s.cls.group with hg | hg | hg
+    · left; exact hg
+    · right
+      have hc : t.cls = s.cls := same_group_same_cls htd hsd hg
+      refine ⟨hc, ?_⟩
+      rw [hc] at hlt pt2
+      have hin : (seg u order s.cls).idxOf t.name < (seg u order s.cls).idxOf s.name := by omega
+      unfold withinBefore
+      split
+      · rename_i hp
+        rw [ho]
+        simp only
+        rw [hp] at hin
+        rw [← htn]; exact hin
+      · rename_i hnp
+        rw [hsegeq s.cls hsd hnp] at hin
+        -- order inside a filtered list reflects the order in the table
+        rw [← htn]
+        rcases Nat.lt_trichotomy ((names u.syms).idxOf t.name) ((names u.syms).idxOf s.name) with h1 | h1 | h1
+        · exact h1
+        · exfalso
+          have hmem : t.name ∈ names u.syms := List.mem_map.mpr ⟨t, ht, rfl⟩
+          have : t.name = s.name := by
+            have e1 := List.getElem_idxOf (List.idxOf_lt_length_iff.mpr hmem)
+            have hmem2 : s.name ∈ names u.syms := List.mem_map.mpr ⟨s, hs, rfl⟩
+            have e2 := List.getElem_idxOf (List.idxOf_lt_length_iff.mpr hmem2)
+            rw [← e1, ← e2]; congr 1
+          rw [this] at hin; omega
+        · exfalso
+          have := idxOf_filter_mono w.nodup (fun x => x.cls == s.cls) hs ht (by simp) (by simp [hc]) h1
+          unfold ofCls at hin
+          omega
+    · exfalso
+      have := offset_mono u order hsd htd hg
+      omega
+  · -- nothing read from a later place ⇒ valid order
+    intro hg s hs d hd hdn
+    have hs' := List.mem_filter.mp (hperm.subset hs)
+    obtain ⟨t, ht, htn⟩ := List.mem_map.mp hdn
+    have ht' := List.mem_filter.mp (hperm.subset ht)
+    have hsd : s.cls.declarable = true := by simpa using hs'.2
+    have htd : t.cls.declarable = true := by simpa using ht'.2
+    rw [hds, names_genDecls w ho]
+    obtain ⟨ps, ps2⟩ := pos_eq w ho hs'.1 hsd
+    obtain ⟨pt, pt2⟩ := pos_eq w ho ht'.1 htd
+    rw [← htn, ps, pt]
+    rcases hg s hs'.1 hsd d hd t ht'.1 htn htd with hlt | ⟨hc, hw⟩
+    · have := offset_mono u order htd hsd hlt; omega
+    · rw [hc]
+      suffices (seg u order s.cls).idxOf t.name < (seg u order s.cls).idxOf s.name by omega
+      unfold withinBefore at hw
+      split at hw
+      · rename_i hp
+        rw [ho] at hw
+        simp only at hw
+        rw [hp]; show order.idxOf t.name < order.idxOf s.name
+        rw [htn]; exact hw
+      · rename_i hnp
+        rw [hsegeq s.cls hsd hnp]
+        refine idxOf_filter_mono w.nodup _ ht'.1 hs'.1 (by simp [hc]) (by simp) ?_
+        rw [htn]; exact hw
+
+/-- `GroupMonotone` (a condition that does not mention the computed order of the constants) implies
+the weakest condition. -/
+theorem C04_groupMonotone_laterFree (u : Decls.Unit) (w : Wf u) (hg : GroupMonotone u) (ds : List Sym)
+    (h : genDecls u = .ok ds) : LaterFree u :=
+  (C04_order_valid_iff u w ds h).mp (C04_order_partial u w hg ds h)
+
 /-- After the inner scopes have been merged into the routine scope (or a callee's table into the
 caller's, as `InlineTrans` does): all names are distinct, so every written name denotes (in the
 merged, single scope) the symbol object it was written for; every entry is one of the original objects
@@ -256,6 +379,26 @@ theorem C04_codeblock_names_not_captured {N : Type} [DecidableEq N] (fresh : Lis
   · exact ⟨hn, by rw [← hn, hid]; exact h2 s' hs'⟩
   · exact absurd hm hnm
 
+/-- **Merge completeness**: every symbol of the routine table survives the merge as an entry with a
+provenance (same object, same kind, possibly renamed); every symbol of an inner scope survives likewise,
+or is an imported / unresolved duplicate dropped in favour of an entry of the same name and kind that
+denotes the same entity. -/
+theorem C04_merge_complete {N : Type} [DecidableEq N] (fresh : List N → N → N)
+    (hfresh : ∀ ex root, fresh ex root ∉ ex) (norm : N → N) (outer cbSelf : List N) (self : List (MSym N))
+    (inner : List (List (MSym N))) (r : List (MSym N)) (hnd : (mnames self).Nodup)
+    (hs1 : CbSub cbSelf self) (hs2 : CbSub cbSelf inner.flatten)
+    (h : mergeScopes fresh norm outer cbSelf self inner = some r) :
+    (∀ x ∈ self, ∃ s' ∈ r, Prov norm outer x s') ∧ ∀ x ∈ inner.flatten, Survives norm outer r x :=
+  mergeScopes_complete fresh hfresh norm inner self r hnd hs1 hs2 h
+
+/-- completeness of a single `merge` (InlineTrans) -/
+theorem C04_merge_table_complete {N : Type} [DecidableEq N] (fresh : List N → N → N)
+    (hfresh : ∀ ex root, fresh ex root ∉ ex) (norm : N → N) (outer cbSelf : List N)
+    (self other r : List (MSym N)) (hnd : (mnames self).Nodup) (hs1 : CbSub cbSelf self)
+    (hs2 : CbSub cbSelf other) (h : mergeTable fresh norm outer cbSelf self other = some r) :
+    ∀ x ∈ self ++ other, Survives norm outer r x :=
+  mergeTable_complete fresh hfresh norm hnd hs1 hs2 h
+
 /-- `SymbolTable.merge` as used by `InlineTrans` (one table into another): same guarantees. -/
 theorem C04_merge_table_no_capture {N : Type} [DecidableEq N] (fresh : List N → N → N)
     (hfresh : ∀ ex root, fresh ex root ∉ ex) (norm : N → N) (outer cbSelf : List N)
@@ -286,6 +429,7 @@ example : (pkeys [(3, [2]), (2, [1]), (1, ([] : List Name))]).Nodup := by decide
 /-- the counterexample table is well-formed and its own order is valid -/
 example : Wf cexOrder ∧ DepsOrdered (cexOrder.syms.filter (fun s => s.cls.declarable)) := by decide
 example : ¬ GroupMonotone cexOrder := by decide
+example : LaterFree uOk ∧ ¬ LaterFree cexOrder := by decide
 
 /-- merging: the routine has `x`(1) and an argument `y`(2); an inner scope has its own `x` and `y` -/
 def freshNat (ex : List Nat) (root : Nat) : Nat := ex.foldl max root + 1
